@@ -72,9 +72,10 @@ const (
 	c02ActClose = iota
 	c02ActReset
 	c02ActHalf
+	c02ActVanish // the end fails silently; its transport reports a permanent (non-temporary) timeout from then on
 )
 
-var c02ActNames = []string{"close", "reset", "half-close"}
+var c02ActNames = []string{"close", "reset", "half-close", "transport-timeout"}
 
 type c02policy struct {
 	kind int
@@ -119,6 +120,7 @@ type c02end struct {
 	srvw       *c02srv       // what the server holds: the server end of the link, observed
 	eofWithData bool
 	tmoEvery    int
+	emptyN      int
 	tun         *simnet.Conn // relay world: the client end of the tunnel link (conn is the application's end of the local link)
 
 	stalled     bool
@@ -190,6 +192,56 @@ type c02srv struct {
 	// the chance to forward that data: when the next Write on the other transport returns
 	toldWithData bool
 	other        *c02srv
+	// empty reads: before each data Read the transport reports emptyN times (0, nil) - zero-length writes by
+	// the end / empty frames / idle polls; they carry nothing and are no error
+	emptyN    int
+	emptyLeft int
+	empties   int
+	// dead: the end has failed silently and the transport has given up on it (QUIC idle timeout): every Read
+	// and Write fails at once with a timeout error that is NOT temporary, for ever (until the server closes it)
+	dead     bool
+	postDead int
+	spin     bool
+	closedCh chan struct{}
+}
+
+// c02idle is the permanent failure of a dead transport: Timeout() is true, Temporary() is false.
+type c02idle struct{}
+
+func (c02idle) Error() string   { return "c02: timeout: no recent network activity (permanent)" }
+func (c02idle) Timeout() bool   { return true }
+func (c02idle) Temporary() bool { return false }
+
+// c02DeadReadLimit: Reads the harness answers after the transport died before it stops feeding a server
+// that keeps polling it (the closure/forget clauses give the verdict).
+const c02DeadReadLimit = 64
+
+// kill makes the transport dead and wakes whatever the server has blocked on it.
+func (s *c02srv) kill() {
+	s.dead = true
+	s.Conn.SetDeadline(time.Now())
+}
+
+func (s *c02srv) deadOp(site string) error {
+	s.r.w.Yield(site)
+	if s.closedAt >= 0 {
+		return net.ErrClosed
+	}
+	s.postDead++
+	if s.postDead > c02DeadReadLimit {
+		if !s.spin {
+			s.spin = true
+			s.r.w.Probe("dead-transport.server-keeps-polling")
+		}
+		select {
+		case <-s.closedCh:
+		case <-s.r.doneCh:
+		case <-s.r.w.Ctx.Done():
+		}
+		s.r.w.Yield(site + ".release")
+		return net.ErrClosed
+	}
+	return c02idle{}
 }
 
 // c02tmo is a transient read timeout (net.Error style).
@@ -206,14 +258,36 @@ func (s *c02srv) note(err error) {
 	if err == nil || s.toldAt >= 0 {
 		return
 	}
-	if te, ok := err.(interface{ Timeout() bool }); ok && te.Timeout() {
+	if te, ok := err.(interface {
+		Timeout() bool
+		Temporary() bool
+	}); ok && te.Timeout() && te.Temporary() {
 		return
 	}
 	s.toldAt = s.r.w.Now()
 }
 
 func (s *c02srv) Read(p []byte) (int, error) {
+	if s.dead {
+		err := s.deadOp("c02.dead-transport.read")
+		s.note(err)
+		return 0, err
+	}
+	if s.active && s.emptyLeft > 0 && len(p) > 0 {
+		s.emptyLeft--
+		s.empties++
+		s.r.w.Yield("c02.empty-read")
+		return 0, nil
+	}
 	n, err := s.Conn.Read(p)
+	if s.dead {
+		err = s.deadOp("c02.dead-transport.read")
+		s.note(err)
+		return 0, err
+	}
+	if n > 0 {
+		s.emptyLeft = s.emptyN
+	}
 	if s.active && err == nil && n > 0 {
 		s.dataReads++
 		if s.eofWithData && s.Conn.PeerClosedWrite() && s.Conn.Pending() == 0 {
@@ -235,7 +309,15 @@ func (s *c02srv) Read(p []byte) (int, error) {
 }
 
 func (s *c02srv) Write(p []byte) (int, error) {
+	if s.dead {
+		err := s.deadOp("c02.dead-transport.write")
+		s.note(err)
+		return 0, err
+	}
 	n, err := s.Conn.Write(p)
+	if s.dead && err != nil {
+		err = c02idle{}
+	}
 	s.note(err)
 	if o := s.other; o != nil && o.toldWithData {
 		o.toldWithData = false
@@ -247,12 +329,14 @@ func (s *c02srv) Write(p []byte) (int, error) {
 func (s *c02srv) Close() error {
 	if s.closedAt < 0 {
 		s.closedAt = s.r.w.Now()
+		close(s.closedCh)
 	}
 	return s.Conn.Close()
 }
 
 func (r *c02run) newSrv(e *c02end, c *simnet.Conn, active bool) *c02srv {
-	return &c02srv{Conn: c, r: r, toldAt: -1, closedAt: -1, active: active, eofWithData: e.eofWithData, tmoEvery: e.tmoEvery}
+	return &c02srv{Conn: c, r: r, toldAt: -1, closedAt: -1, active: active, eofWithData: e.eofWithData, tmoEvery: e.tmoEvery,
+		emptyN: e.emptyN, emptyLeft: e.emptyN, closedCh: make(chan struct{})}
 }
 
 // serverTold is the first moment the server was handed the end/failure of either transport (-1: never).
@@ -421,6 +505,7 @@ func init() {
 			"the segmentation law of each of the four link directions (all/1-byte/1-7/MTU/cuts around 32 KiB/mixed), link buffer capacity (unbounded .. 100 B, back-pressure), when the target attaches (0 .. 25 s after the source, before or after Start, before or after the source's first bytes), " +
 			"and a closing policy per end (graceful = after everything was sent and received (1/2) | close, reset or half-close after the last write | close or reset after k bytes written | close or reset after k bytes received | close or reset at time t). " +
 			"Server-side transport flavour per end (1/2): the last bytes arrive together with io.EOF and/or every k-th data Read also reports a transient timeout (what io.Reader allows and QUIC/TLS/deadline-driven readers do); a slow producer (one chunk per second) in 1/6 of the ends. " +
+			"Further flavours: before every data Read the server's transport reports 1, 3 or 8 empty reads (0, nil) (1/2 of the ends; zero-length writes / empty frames / idle polls - hundreds accumulate in longer transfers); an end may also fail silently, its transport then answering every Read and Write with a permanent timeout error (Timeout() true, Temporary() false - QUIC idle timeout) until the server closes it. " +
 			"1 of 4 runs use the relay world: the component world with each end being an application behind a real iocopy.Bidirectional relay wired like client/target_handler.go (local link <-> relay <-> tunnel link <-> bridge), tunnel transport with or without half-close (CloseWrite). " +
 			"2 of 4 runs use the component world (one real tunnel.Bridge between two simnet links wrapped the way the server wraps tunnel connections, lifecycle body run by a harness task); 1 of 4 uses a fully wired server node where both ends log in as tunnel connections and send TunnelOpen through the real adapter read loop (real startSourceBridge/handleExistingBridge/runBridgeLifecycle, mapping with the drawn BandwidthLimit in the real cloud control). " +
 			"Faults: per end (1/3) a consumer stall - the reader stops reading for 90 s or 400 s after k received bytes, usually with a bounded link towards it (the server's write to it blocks) and a trickling writer on the same end; " +
@@ -441,6 +526,7 @@ func init() {
 			"a consumer that is not reading is a fault: if such a stall is in progress after the close, the closure clock starts when the server was first handed the end/failure of a transport (a Read/Write on it returned a non-timeout error) or when the last stall ended, whichever is first; the stalled end itself must see the end within the bound after it resumes reading",
 			"a half-close counts as that end closing only where the tunnel transport conveys it to the server (worlds without relays, relay world with CloseWrite); an application's half-close behind a relay whose transport has no CloseWrite (WebSocket/KCP/QUIC wrappers of the repository) closes nothing at the tunnel level, so the bytes flowing towards that application must still all arrive, however long the other direction takes",
 			"relay world: only prefix, completeness, counters and pacing are judged (closure propagation through relays is C12's clause)",
+			"a Read that returns (0, nil) carries nothing and ends nothing, however many of them accumulate; a transport error is transient only if it says so (Timeout() and Temporary()): a permanent timeout is that end failing, so the other end must observe closure and the server must forget the tunnel within the bound (a reset-like failure: completeness void)",
 			"a Read that returns data together with an error (io.EOF or a transient timeout) has delivered that data: it belongs to the stream",
 			"a bandwidth limit of L bytes/s means an end never has received more than L*t + 4*L + 64 KiB bytes at simulated time t (very loose: only gross non-enforcement is flagged)",
 			"bytes an end writes before the other end is attached belong to the tunnel (the server acknowledged the open before the target attaches)",
@@ -463,13 +549,13 @@ func c02Policy(c *simrt.Choice, label string, sendLen, expectLen int, xfer time.
 		p.kind = c02Graceful
 	case 6: // after the last write
 		p.kind, p.k = c02OnSent, sendLen
-		p.act = []int{c02ActClose, c02ActReset, c02ActHalf, c02ActHalf}[c.Intn(4, label+".act")]
+		p.act = []int{c02ActClose, c02ActReset, c02ActHalf, c02ActHalf, c02ActVanish}[c.Intn(5, label+".act")]
 	case 7: // in the middle of sending
 		p.kind, p.k = c02OnSent, c.Intn(sendLen+1, label+".k")
-		p.act = c.Intn(2, label+".act")
+		p.act = []int{c02ActClose, c02ActReset, c02ActVanish}[c.Intn(3, label+".act")]
 	case 8, 9: // after receiving k bytes
 		p.kind, p.k = c02OnRecv, c.Intn(expectLen+1, label+".k")
-		p.act = c.Intn(2, label+".act")
+		p.act = []int{c02ActClose, c02ActReset, c02ActVanish}[c.Intn(3, label+".act")]
 	default: // at a time: the instants avoid the code's own timer values
 		p.kind = c02OnTime
 		switch c.Intn(5, label+".t") {
@@ -484,7 +570,7 @@ func c02Policy(c *simrt.Choice, label string, sendLen, expectLen int, xfer time.
 		default:
 			p.d = 41*time.Second + 13*time.Millisecond
 		}
-		p.act = c.Intn(2, label+".act")
+		p.act = []int{c02ActClose, c02ActReset, c02ActVanish}[c.Intn(3, label+".act")]
 	}
 	return p
 }
@@ -554,6 +640,13 @@ func c02Run(w *simrt.World, tier string) {
 			e.tmoEvery = 1 + c.Intn(5, e.name+".readerr.k")
 		}
 	}
+	for _, e := range []*c02end{a, b} {
+		if relay && e.pol.act == c02ActVanish {
+			e.pol.act = c02ActReset // the relay world judges no closure clause; applications fail by reset there
+		}
+		// empty reads before every data Read of the server (hundreds accumulate over a longer transfer)
+		e.emptyN = []int{0, 0, 0, 1, 3, 8}[c.Intn(6, e.name+".emptyreads")]
+	}
 	// a slow producer (one small chunk per second) keeps a direction busy for tens of seconds
 	for _, e := range []*c02end{a, b} {
 		if c.Intn(6, e.name+".trickle") == 5 {
@@ -607,7 +700,7 @@ func c02Run(w *simrt.World, tier string) {
 	}
 	w.Sample(fmt.Sprintf("limit=%d lenA=%d lenB=%d A{w=%v/%v r=%v/%v pol=%v wait=%v srvlaw=%s clilaw=%s cap=%d} B{w=%v/%v r=%v/%v pol=%v wait=%v srvlaw=%s clilaw=%s cap=%d} attach=%v beforeStart=%v",
 		r.limit, lenA, lenB, a.wplan.sizes, a.wplan.delays, a.rplan.sizes, a.rplan.delays, a.pol, a.waitAttach, simnet.LawNames[cfgA.LawAB], simnet.LawNames[cfgA.LawBA], cfgA.Capacity,
-		b.wplan.sizes, b.wplan.delays, b.rplan.sizes, b.rplan.delays, b.pol, b.waitAttach, simnet.LawNames[cfgB.LawAB], simnet.LawNames[cfgB.LawBA], cfgB.Capacity, attachDelay, attachBeforeStart) + fmt.Sprintf(" world=%d closewrite=%v readerrA=%v/%d readerrB=%v/%d full=%v stallA=%v@%d stallB=%v@%d storeStall=%v cc=%v", world, r.cwCapable, a.eofWithData, a.tmoEvery, b.eofWithData, b.tmoEvery, full, a.stallFor, a.stallAfter, b.stallFor, b.stallAfter, r.storeStallFor, useCC))
+		b.wplan.sizes, b.wplan.delays, b.rplan.sizes, b.rplan.delays, b.pol, b.waitAttach, simnet.LawNames[cfgB.LawAB], simnet.LawNames[cfgB.LawBA], cfgB.Capacity, attachDelay, attachBeforeStart) + fmt.Sprintf(" world=%d closewrite=%v readerrA=%v/%d/%d readerrB=%v/%d/%d full=%v stallA=%v@%d stallB=%v@%d storeStall=%v cc=%v", world, r.cwCapable, a.eofWithData, a.tmoEvery, a.emptyN, b.eofWithData, b.tmoEvery, b.emptyN, full, a.stallFor, a.stallAfter, b.stallFor, b.stallAfter, r.storeStallFor, useCC))
 	w.State(fmt.Sprintf("%d%v/%v%v/%v%v%v/%s/A%d.%d/B%d.%d/%s%s/att%v", world, r.cwCapable && relay, a.eofWithData || b.eofWithData, a.tmoEvery+b.tmoEvery > 0, full, a.stallFor > 0, b.stallFor > 0, r.storeStallFor > 0 && useCC, limClass, a.pol.kind, a.pol.act, b.pol.kind, b.pol.act, simnet.LawNames[cfgA.LawAB], simnet.LawNames[cfgB.LawAB], attachDelay > 0))
 
 	mode := "bridge"
@@ -919,7 +1012,7 @@ func c02Run(w *simrt.World, tier string) {
 	early := ""
 	for _, e := range []*c02end{a, b} {
 		if e.closedAt >= 0 {
-			if e.act == c02ActReset {
+			if e.act == c02ActReset || e.act == c02ActVanish {
 				reset = true
 			}
 			// a half-close that the tunnel transport cannot convey closes nothing at the tunnel level
@@ -1003,6 +1096,13 @@ func c02Run(w *simrt.World, tier string) {
 	if r.overlap || (r.limit > 0 && (a.recv > 0 || b.recv > 0)) || (r.first != nil && (r.first.recvAtClose < r.first.peer.sent || r.first.act != c02ActClose)) {
 		w.Nontrivial()
 	}
+	for _, e := range []*c02end{a, b} {
+		if e.srvw != nil && e.srvw.empties >= 100 {
+			w.Probe("empty-reads.100-or-more-in-one-direction")
+		} else if e.srvw != nil && e.srvw.empties > 0 {
+			w.Probe("empty-reads.some")
+		}
+	}
 	if r.startErr != nil {
 		w.Probe("start.error")
 	}
@@ -1029,6 +1129,11 @@ func (r *c02run) closeAction(e *c02end, act int) {
 		r.w.Probe("end." + c02ActNames[act])
 	}
 	switch act {
+	case c02ActVanish:
+		// the end is gone without a word: nothing reaches the server from it any more; its transport reports the failure
+		r.w.Fault("transport-timeout")
+		e.srvw.kill()
+		e.conn.Close()
 	case c02ActReset:
 		e.conn.Reset()
 		e.conn.Close()
